@@ -306,7 +306,14 @@ func init() {
 			if bf(a[1]).Sign() < 0 {
 				return rErr("negative size")
 			}
-			return rUnspec("huge size")
+			if _, acc := bf(a[1]).Int64(); acc == big.Exact {
+				// a size that fits the Go integer but exceeds any list length: one chunk with everything
+				if es := seqElems(a[0]); len(es) > 0 {
+					return rOK(mkList(t, []cty.Value{a[0]}))
+				}
+				return rOK(mkList(t, nil))
+			}
+			return rUnspec("size beyond the Go integer")
 		}
 		if n < 0 {
 			return rErr("negative size")
